@@ -46,6 +46,8 @@ class ScalarMultiplication final : public Operator {
   S _s;
   /*! The operator to be multiplied. */
   O _o;
+  /*! If true, the operator is divided by the scalar instead of multiplied. */
+  bool _divide = false;
 
  public:
   /*!
@@ -58,6 +60,18 @@ class ScalarMultiplication final : public Operator {
    * @param o The operator to be multiplied.
    */
   ScalarMultiplication(S s, O o) : _s(std::move(s)), _o(std::move(o)){};
+
+  /*!
+   * @brief Multiplication or division of an Operator by a scalar.
+   *
+   * @param s The scalar.
+   * @param o The operator.
+   * @param divide If true, the operator is divided by s. The division is
+   * carried out in the data type of the spline, so integer scalars work as
+   * expected (1 / 2 would be zero in integer arithmetic).
+   */
+  ScalarMultiplication(S s, O o, bool divide)
+      : _s(std::move(s)), _o(std::move(o)), _divide(divide){};
 
   /*!
    * @brief Multiplication of scalar and a default constructed Operator.
@@ -98,9 +112,13 @@ class ScalarMultiplication final : public Operator {
                  size_t intervalIndex) const {
     auto a = _o.transform(input, grid, intervalIndex);
 
-    // Multiply a.
+    // Multiply (or divide) a.
     for (T &el : a) {
-      el *= static_cast<T>(_s);
+      if (_divide) {
+        el /= static_cast<T>(_s);
+      } else {
+        el *= static_cast<T>(_s);
+      }
     }
     return a;
   }
@@ -163,7 +181,7 @@ template <
     typename S, typename O,
     std::enable_if_t<are_scalar_multiplication_types_v<S, O>, bool> = true>
 ScalarMultiplication<S, O> operator/(O &&o, const S &s) {
-  return ScalarMultiplication(static_cast<S>(1) / s, std::forward<O>(o));
+  return ScalarMultiplication<S, O>(s, std::forward<O>(o), true);
 }
 
 /*!
